@@ -84,6 +84,53 @@ func c03AppendToFirstMedia(extra string) func(*kit.Rand, string) (string, bool) 
 	}
 }
 
+// c03SwapCodecs exchanges the codecs of the first two non-RTX payload types of the first audio/video section that has
+// two: each payload type now names another codec than before (in a renegotiation: than the one already negotiated).
+func c03SwapCodecs(_ *kit.Rand, s string) (string, bool) {
+	session, sections := rigSplitSections(s)
+	for _, sec := range sections {
+		if k := c03SectionKind(sec); k != "audio" && k != "video" {
+			continue
+		}
+		var idx []int
+		for i, ln := range sec {
+			if f := strings.Fields(ln); strings.HasPrefix(ln, "a=rtpmap:") && len(f) == 2 && !strings.HasPrefix(strings.ToLower(f[1]), "rtx/") {
+				if len(idx) == 1 && strings.EqualFold(strings.Fields(sec[idx[0]])[1], f[1]) {
+					continue // same codec under two payload types (H264 profiles ...): swapping would change nothing
+				}
+				idx = append(idx, i)
+			}
+			if len(idx) == 2 {
+				break
+			}
+		}
+		if len(idx) < 2 {
+			continue
+		}
+		a, b := strings.Fields(sec[idx[0]]), strings.Fields(sec[idx[1]])
+		sec[idx[0]], sec[idx[1]] = a[0]+" "+b[1], b[0]+" "+a[1]
+
+		return rigJoinSections(session, sections), true
+	}
+
+	return s, false
+}
+
+// c03CorruptApt makes the apt of the first RTX payload type that the description really offers unparsable (the older
+// fmtp-apt-garbage class adds an RTX payload type that is not on the m= line, which most parsers never look at).
+func c03CorruptApt(_ *kit.Rand, s string) (string, bool) {
+	lines := strings.Split(strings.TrimRight(s, "\r\n"), "\r\n")
+	for i, ln := range lines {
+		if j := strings.Index(ln, " apt="); j > 0 && strings.HasPrefix(ln, "a=fmtp:") {
+			lines[i] = ln[:j] + " apt=x"
+
+			return strings.Join(lines, "\r\n") + "\r\n", true
+		}
+	}
+
+	return s, false
+}
+
 func c03Mutations() []c03Mutation {
 	return []c03Mutation{
 		{"unparsable:garbage", func(*kit.Rand, string) (string, bool) { return "this is not sdp", true }},
@@ -104,6 +151,8 @@ func c03Mutations() []c03Mutation {
 		{"bad-candidate", c03AppendToFirstMedia("a=candidate:1 1 udp notanumber 127.0.0.1 9 typ host")},
 		{"bad-extmap", c03AppendToFirstMedia("a=extmap:notanumber urn:ietf:params:rtp-hdrext:sdes:mid")},
 		{"conflicting-ice-ufrag", c03AppendToFirstMedia("a=ice-ufrag:otherUfragValue")},
+		{"payload-type-reassigned", c03SwapCodecs},
+		{"fmtp-apt-garbage:listed", c03CorruptApt},
 	}
 }
 
@@ -112,7 +161,9 @@ type c03Case struct {
 	Prefix string // fresh | one-exchange
 	Local  bool
 	Type   SDPType
-	Class  string // mutation name, or wrong-type / not-last-created
+	Class  string       // mutation name, or wrong-type / not-last-created
+	Varied bool         // false: default configuration, pion-made base descriptions; true: configuration and shape drawn per case (c03_env_test.go)
+	Sem    SDPSemantics // varied cases: Configuration.SDPSemantics is a systematic dimension, the other knobs are drawn per case
 }
 
 func (c c03Case) String() string {
@@ -121,35 +172,48 @@ func (c c03Case) String() string {
 		m = "SetLocalDescription"
 	}
 
-	return fmt.Sprintf("%s(%s) from %s [%s] class=%s", m, c.Type, c.State, c.Prefix, c.Class)
+	env := ""
+	if c.Varied {
+		env = " env=varied/" + c.Sem.String()
+	}
+
+	return fmt.Sprintf("%s(%s) from %s [%s] class=%s%s", m, c.Type, c.State, c.Prefix, c.Class, env)
 }
 
 func TestVerifC03(t *testing.T) { //nolint:cyclop,gocognit,maintidx
 	run := kit.Start(t, "C03", "every reachable signaling state (two prefixes) × side × description type × invalid class: wrong type for the state (valid "+
 		"description), local description that is not the last created one, and mutations of a VALID description of the right type (unparsable ×5, "+
 		"mid removed first/middle/last, ice-ufrag/ice-pwd/fingerprint removed, one-token fingerprint, non-numeric PT, rtpmap without clock, apt garbage, bad candidate, "+
-		"bad extmap, conflicting ufrag). Non-trivial = the call returned an error from a non-closed state; distinct by the case tuple + seed index")
+		"bad extmap, conflicting ufrag, payload types reassigned to other codecs, apt of an offered RTX made unparsable). The whole enumeration runs once per rep on a default-configured PeerConnection with pion-made base descriptions, and "+
+		"six times per rep in a VARIED environment: twice under each Configuration.SDPSemantics (unified-plan / plan-b / unified-plan-with-fallback), the rest drawn per case: Configuration (BundlePolicy, "+
+		"AlwaysNegotiateDataChannels), SettingEngine (ICE-lite, media-level fingerprints, single-codec negotiation, answering DTLS role, fixed ICE credentials), "+
+		"narrow MediaEngine; and the shape of the valid base description before the invalid mutation: pion-made or generator-made foreign offer, 1..4 tracks per "+
+		"media section (extra a=ssrc/msid tracks), mids kept / renamed to tokens / renamed to the media kind. "+
+		"Non-trivial = the call returned an error from a non-closed state; distinct by the case tuple + seed index")
 	defer run.Finish()
 	muts := c03Mutations()
 	var cases []c03Case
 	states := []SignalingState{SignalingStateStable, SignalingStateHaveLocalOffer, SignalingStateHaveRemoteOffer, SignalingStateHaveLocalPranswer, SignalingStateHaveRemotePranswer}
 	edges := jsepEdges()
 	reps := kit.N(1, 12)
-	for rep := 0; rep < reps; rep++ {
+	sems := []SDPSemantics{SDPSemanticsUnifiedPlan, SDPSemanticsUnifiedPlanWithFallback, SDPSemanticsPlanB}
+	for rep := 0; rep < 7*reps; rep++ {
+		// the first `reps` blocks are the default environment, then per rep two varied blocks for each SDPSemantics value
+		varied, sem := rep >= reps, sems[rep%3]
 		for _, pre := range []string{"fresh", "one-exchange"} {
 			for _, st := range states {
 				for _, local := range []bool{true, false} {
 					for _, typ := range []SDPType{SDPTypeOffer, SDPTypePranswer, SDPTypeAnswer} {
 						if _, isEdge := edges[jsepKey{st, local, typ}]; !isEdge {
-							cases = append(cases, c03Case{st, pre, local, typ, "wrong-type-for-state"})
+							cases = append(cases, c03Case{st, pre, local, typ, "wrong-type-for-state", varied, sem})
 
 							continue
 						}
 						if local {
-							cases = append(cases, c03Case{st, pre, local, typ, "not-last-created"})
+							cases = append(cases, c03Case{st, pre, local, typ, "not-last-created", varied, sem})
 						}
 						for _, m := range muts {
-							cases = append(cases, c03Case{st, pre, local, typ, m.Name})
+							cases = append(cases, c03Case{st, pre, local, typ, m.Name, varied, sem})
 						}
 					}
 				}
@@ -164,7 +228,18 @@ func TestVerifC03(t *testing.T) { //nolint:cyclop,gocognit,maintidx
 	run.Parallel(len(cases), 12, func(i int) {
 		c := cases[i]
 		r := run.CaseRand(i)
-		pc := rigMustPC(rigOpts{})
+		var env c03Env
+		peer := c03Peer{SDPSemanticsUnifiedPlan, SDPSemanticsUnifiedPlan} // the remote peer of the set-up phase and of the pion-made base descriptions
+		if c.Varied {
+			env = c03DrawEnv(r, c.Sem)
+			peer = c03DrawPeer(r, env.Opts.Cfg.SDPSemantics)
+		}
+		pc, perr := rigNewPC(env.Opts)
+		if perr != nil {
+			run.Inconclusive("setup:new-pc:" + firstN(perr.Error(), 50))
+
+			return
+		}
 		defer rigClose(pc)
 		var events atomic.Int32
 		pc.OnSignalingStateChange(func(SignalingState) { events.Add(1) })
@@ -178,24 +253,32 @@ func TestVerifC03(t *testing.T) { //nolint:cyclop,gocognit,maintidx
 		expectEvents := int32(0)
 		if c.Prefix == "one-exchange" {
 			expectEvents += 2
-			if err := jsepExchange(pc, r, r.Bool()); err != nil {
+			if err := c03Exchange(pc, r, r.Bool(), peer); err != nil {
 				run.Inconclusive("setup:exchange:" + firstN(err.Error(), 50))
 
 				return
 			}
 		}
-		if err := jsepReach(pc, r, c.State); err != nil || pc.SignalingState() != c.State {
-			run.Inconclusive("setup:reach-" + c.State.String())
+		if err := c03Reach(pc, r, c.State, peer); err != nil || pc.SignalingState() != c.State {
+			why := ""
+			if err != nil {
+				why = ":" + firstN(err.Error(), 60)
+			}
+			run.Inconclusive("setup:reach-" + c.State.String() + why)
 
 			return
 		}
 		// a VALID description of the requested side and type for this state (as valid as the state allows)
 		var desc SessionDescription
+		origin, most := "pion", 1
+		if c.Varied {
+			most = 2
+		}
 		switch {
 		case c.Local && c.Type == SDPTypeOffer:
 			o, err := pc.CreateOffer(nil)
 			if err != nil {
-				run.Inconclusive("setup:createoffer")
+				run.Inconclusive("setup:createoffer:" + firstN(err.Error(), 60))
 
 				return
 			}
@@ -209,7 +292,13 @@ func TestVerifC03(t *testing.T) { //nolint:cyclop,gocognit,maintidx
 			a.Type = c.Type
 			desc = a
 		case c.Type == SDPTypeOffer:
-			o, err := jsepHelperOffer(r)
+			if c.Varied && r.Bool() {
+				desc = SessionDescription{Type: SDPTypeOffer, SDP: c03ForeignOffer(r)}
+				origin = "foreign"
+
+				break
+			}
+			o, err := c03PeerOffer(r, peer.OfferSem, most)
 			if err != nil {
 				run.Inconclusive("setup:helper-offer")
 
@@ -219,7 +308,7 @@ func TestVerifC03(t *testing.T) { //nolint:cyclop,gocognit,maintidx
 		default:
 			base := pc.PendingLocalDescription()
 			if base == nil || base.Type != SDPTypeOffer {
-				o, err := jsepHelperOffer(r)
+				o, err := c03PeerOffer(r, peer.OfferSem, 1)
 				if err != nil {
 					run.Inconclusive("setup:helper-offer")
 
@@ -227,7 +316,7 @@ func TestVerifC03(t *testing.T) { //nolint:cyclop,gocognit,maintidx
 				}
 				base = &o
 			}
-			a, err := jsepHelperAnswer(*base)
+			a, err := c03PeerAnswer(*base, peer.AnswerSem)
 			if err != nil {
 				run.Inconclusive("setup:helper-answer")
 
@@ -235,6 +324,12 @@ func TestVerifC03(t *testing.T) { //nolint:cyclop,gocognit,maintidx
 			}
 			a.Type = c.Type
 			desc = a
+		}
+		shape := ""
+		if c.Varied && !c.Local {
+			// another valid description of the same side and type: more tracks per section, other mid names (offers only)
+			desc.SDP = c03Shape(r, desc.SDP, c.Type == SDPTypeOffer)
+			shape = origin + "," + c03Describe(desc.SDP).String()
 		}
 		switch c.Class {
 		case "wrong-type-for-state":
@@ -282,6 +377,22 @@ func TestVerifC03(t *testing.T) { //nolint:cyclop,gocognit,maintidx
 		run.Case(fmt.Sprintf("%s #%d", c, i), true)
 		run.Seen("error_classes", c.Class)
 		run.Seen("states", c.State.String())
+		if c.Varied {
+			run.Count("varied_env_errors", 1)
+			run.Seen("env_semantics", env.Semantics)
+			for _, k := range env.Knobs {
+				run.Seen("env_knobs", k)
+			}
+			if shape != "" {
+				run.Seen("remote_shapes", shape)
+				fam := c.Class
+				if j := strings.Index(fam, ":"); j > 0 {
+					fam = fam[:j]
+				}
+				run.Seen("semantics_x_class", env.Semantics+"/"+fam)
+				run.Seen("semantics_x_shape", env.Semantics+"/"+shape[strings.Index(shape, ",")+1:])
+			}
+		}
 		st1, slots1 := jsepObserve(pc)
 		method := "SetRemoteDescription"
 		if c.Local {
@@ -291,7 +402,8 @@ func TestVerifC03(t *testing.T) { //nolint:cyclop,gocognit,maintidx
 		// (the error text), not the mutation that provoked it
 		sigBase := fmt.Sprintf("%s:%s:err=%s", method, c.Type, c03ErrClass(err))
 		detail := map[string]any{"case": c.String(), "error": err.Error(), "state_before": st0.String(), "state_after": st1.String(),
-			"slots_before": slots0, "slots_after": slots1, "sdp": desc.SDP}
+			"slots_before": slots0, "slots_after": slots1, "sdp": desc.SDP,
+			"env": env.String(), "varied": c.Varied, "base_shape": shape}
 		if st1 != st0 {
 			run.Violation("state-changed:"+sigBase, fmt.Sprintf("%s returned %q but the signaling state went %s → %s", c, firstN(err.Error(), 100), st0, st1), i, detail)
 		}
@@ -316,6 +428,9 @@ func TestVerifC03(t *testing.T) { //nolint:cyclop,gocognit,maintidx
 // c03ErrClass reduces an error to a stable class: its text without digits and quoted/variable parts, first 48 bytes.
 func c03ErrClass(err error) string {
 	s := err.Error()
+	if i := strings.IndexAny(s, "\r\n"); i > 0 {
+		s = s[:i] // joined errors (one per media section): the first line names the check
+	}
 	if i := strings.Index(s, " in "); i > 0 {
 		s = s[:i]
 	}
